@@ -383,3 +383,31 @@ pub fn run(n: usize, rng: &mut Rng, out: &mut Out) {
         emit_doc(out, c, &src, tag, &[x]);
     }
 }
+
+/// stream `pipetabs`: code spans (and other inline constructs) over continuation lines whose TAB is split by a
+/// container indent (virtual-space entries in the per-line table; `get_source_pos_for` clamps inside them)
+pub fn run_tabs(n: usize, rng: &mut Rng, out: &mut Out) {
+    let plain = conf(&stock(false, false, 100), out);
+    let rich = conf(&stock(true, true, 100), out);
+    let fixed = ["-    ` a\n\t\t`", "- `\n\ta `", "> `\n>\t`\u{e9}", "1.  `` x\n\t\t ``", "-    ` a\n\t\t`\u{e9}", "- )) `\n\t\u{e9} `",
+        "-    a\n\t\tb", "- a\n\tb", "- a\n\n \tb", "-  *a\n\t b*", "-  [a\n\t b](c)", "-  a\\\n\t\tb", "-  a  \n\t\tb", ">  - ` \n>\t\t `",
+        "-   `\n\t\t\t`", "-  ``\n\t ` \n\t\t``", "1. ![`\n\t`](x)", "- `a\n\t`\n\tb `c\n\t`", "-  <a\n\tb>", "-  &amp\n\t;", "- **a\n\t**", "-    `\t\n\t\t\t`"];
+    for s in fixed {
+        emit_doc(out, &plain, s, "doc:tabs-fixed", &[false, true]);
+        emit_doc(out, &rich, s, "doc:tabs-fixed", &[false]);
+    }
+    let opens = ["- `", "> `", "1. `x", "- ``", "- a `b", ">  - `", "- `  ", "-    ` a", "-   ` ", "-  `` a", "10. ` x", ">   ` a", "-  *", "-  [", "-  ~~a", "- \\"];
+    let conts = ["\n\t", "\n\t\t", "\n \t", "\n>\t", "\n  \t", "\r\n\t", "\n\t \t", "\n>\t\t", "\n\t\n\t"];
+    let closes = [" `", "`", " ``", "\n\t`", " ` z", "`\u{e9}", "*", "](u)", "~~", "  `", "\t`"];
+    for i in 0..n {
+        let open = *rng.pick(&opens);
+        let cont = *rng.pick(&conts);
+        let close = *rng.pick(&closes);
+        let mid = match rng.below(4) { 0 => String::new(), 1 => "a".to_string(), 2 => " \u{e9} ".to_string(), _ => crate::gen::doc::inline_text(rng, 0, 2) };
+        let mut src = format!("{open}{cont}{mid}{close}");
+        if rng.chance(1, 4) { let c2 = *rng.pick(&conts); let cl2 = *rng.pick(&closes); src = format!("{src}{c2}{cl2}"); }
+        let c = if i % 3 == 0 { &rich } else { &plain };
+        let x = rng.chance(1, 2);
+        emit_doc(out, c, &src, "doc:tabs-generated", &[x]);
+    }
+}
